@@ -440,3 +440,18 @@ def rebuild(k, args):
     if k == 'lnot' and is_const(args[0]):
         return C(int(args[0][1] == 0))
     return (k,) + tuple(args)
+
+
+def maybe_uninit(t):
+    """Is the byte/term possibly indeterminate (UNINIT itself, or a getter-selected value whose
+    'getter failed / did not write' arm is UNINIT)?"""
+    if t == UNINIT:
+        return True
+    k = t[0]
+    if k == 'sel':
+        return maybe_uninit(t[2]) or maybe_uninit(t[3])
+    if k == 'selw':
+        return maybe_uninit(t[3]) or maybe_uninit(t[4])
+    if k == 'cat':
+        return any(maybe_uninit(b) for b in t[1])
+    return False
